@@ -224,6 +224,9 @@ func (g *Gen) strLit(s string) string {
 	if !ok {
 		n = len(g.strLits) + 1
 		g.strLits[s] = n
+		// literals are distinct strings of known length
+		g.Pre.add(fmt.Sprintf("(assert (= (str_len (str_lit %d)) %d))", n, len(s)))
+		g.Pre.add(fmt.Sprintf("(assert (not (= (str_lit %d) str_empty)))", n))
 	}
 	return fmt.Sprintf("(str_lit %d)", n)
 }
